@@ -404,6 +404,34 @@ func runC17(l *evlog.Log, c *evlog.Case, cs *c17Case) {
 	}
 	mu.Unlock()
 
+	// The period the victim really negotiated: the minimum of what it advertised itself (a spec-driven
+	// client advertises and enforces its spec's value, not the Config's) and what the peer advertised,
+	// the latter raised to the documented floor protocol.MinRemoteIdleTimeout (5 s).
+	if taps := w.Wire.Snapshot(); len(taps) > 0 {
+		tap := taps[len(taps)-1]
+		w.Wire.Lock()
+		own, other := tap.ServerTP, tap.ClientTP
+		if victimIsClient {
+			own, other = tap.ClientTP, tap.ServerTP
+		}
+		if own != nil && other != nil {
+			o := time.Duration(own.Int(wiretap.TPMaxIdleTimeout, 0)) * time.Millisecond
+			p := time.Duration(other.Int(wiretap.TPMaxIdleTimeout, 0)) * time.Millisecond
+			if p > 0 && p < 5*time.Second {
+				p = 5 * time.Second
+			}
+			switch {
+			case o > 0 && p > 0:
+				idle = min(o, p)
+			case o > 0:
+				idle = o
+			case p > 0:
+				idle = p
+			}
+		}
+		w.Wire.Unlock()
+	}
+
 	// ---- watch the victim's context
 	var ctxDoneAt time.Duration = -1
 	ctxWatch := make(chan struct{})
